@@ -146,6 +146,11 @@ def regenerate_extracted():
     if _REGEN:
         return _REGEN
     t0 = time.time()
+    try:
+        from vlib import bridge
+        bridge.cleanup()     # a Bridge.lean of an earlier run speaks about an earlier regeneration
+    except Exception:
+        pass
     with build_lock():
         rc, out = run([os.path.join(ROOT, "translator", "run.sh")], timeout=1800)
     status = []
@@ -194,6 +199,52 @@ def audit_axioms(pid, tag, imports, names, res):
     return ok
 
 
+def try_bridge(pid, gen, ximports, res):
+    """the regenerated definitions broke an equivalence theorem: are they provably the committed definitions?
+    (vlib/bridge.py)  True = yes, all of them, kernel-checked and axiom-audited; the generated files are then back at
+    the committed text and the theorem modules are built against it.  False = no (the regenerated text is in place)."""
+    from vlib import bridge
+    rec = {"attempted": True, "ok": False}
+    res["extracted"]["bridge"] = rec
+    if gen["failed_targets"] or gen["rc"] != 0 or not gen["changed_files"]:
+        rec["reason"] = "untranslatable targets or no changed generated file"
+        return False
+    info = None
+    try:
+        ok, why, info = bridge.plan(gen["changed_files"])
+        if not ok:
+            rec["reason"] = why
+            return False
+        names = bridge.write_bridge(info)
+        rec["definitions"] = [f"{g}: {n}" for _, g, n in names]
+        bridge.restore_committed(info)
+        t0 = time.time()
+        with build_lock():
+            rc1, out1 = run(["lake", "build"] + list(ximports), cwd=LEAN, timeout=3600)
+            rc2, out2 = (1, "") if rc1 != 0 else run(["lake", "build", "KonstVerif.Extracted.Bridge"], cwd=LEAN, timeout=1200)
+        rec["seconds"] = round(time.time() - t0, 1)
+        if rc1 != 0:
+            rec["reason"] = "the equivalence theorems do not build against the committed generated text: " + out1[-300:]
+        elif rc2 != 0:
+            errs = [l for l in out2.split("\n") if l.startswith("error:")][:3]
+            rec["reason"] = "not every changed definition is provably the committed one: " + " | ".join(e[:200] for e in errs)
+        else:
+            tmp = {"failed": [], "axioms": {}}
+            okb = audit_axioms(pid, "b", ["KonstVerif.Extracted.Bridge"], [n for n, _, _ in names], tmp)
+            if okb == len(names):
+                rec["ok"] = True
+                rec["axioms"] = sorted({a for v in tmp["axioms"].values() for a in v})
+                log(f"[{pid}] bridge: {len(names)} regenerated definitions proved equal to the committed ones ({rec['seconds']} s)")
+                return True
+            rec["reason"] = "bridge theorems failed the axiom audit: " + "; ".join(tmp["failed"][:3])
+    except Exception as e:   # best effort: any failure here means 'not bridged'
+        rec["reason"] = f"{type(e).__name__}: {e}"
+    if info is not None:
+        bridge.restore_regenerated(info)
+    bridge.cleanup()
+    return False
+
+
 def proof_obligations(pid, tier):
     imports, names, ximports, xnames = read_obligations(pid)
     res = {"obligations": len(names) + len(xnames), "discharged": 0, "failed": [], "axioms": {},
@@ -220,7 +271,14 @@ def proof_obligations(pid, tier):
             rc, out = run(["lake", "build"] + list(ximports), cwd=LEAN, timeout=3600)
             res["extracted"]["lake_build_s"] = round(time.time() - t0, 1)
         res["checker_cmd"] += " ; translator/run.sh && lake build " + " ".join(ximports)
-        if rc != 0:
+        if rc != 0 and try_bridge(pid, gen, ximports, res):
+            # every regenerated definition that differs from the committed text is kernel-proved equal to it, and the
+            # equivalence theorems have just been re-built against the committed text (DESIGN.md section 11, Bridge)
+            ok = audit_axioms(pid, "x", ximports, xnames, res)
+            res["discharged"] += ok
+            if ok != len(xnames):
+                res["extracted_broken"] = True
+        elif rc != 0:
             errs = [l for l in out.split("\n") if l.startswith("error:")][:6]
             res["extracted_broken"] = True
             res["failed"].append("extracted: the definitions regenerated from /repo's source no longer satisfy the "
